@@ -4,9 +4,11 @@ package c02
 import (
 	"encoding/json"
 	"fmt"
+	"io"
 	"os"
 	"strings"
 	"testing"
+	"testing/iotest"
 
 	"github.com/elliotchance/gedcom/v39"
 	"pgregory.net/rapid"
@@ -38,7 +40,18 @@ func decode(data string, ml, ii bool) (d decoded) {
 			d.panicVal = fmt.Sprint(p)
 		}
 	}()
-	dec := gedcom.NewDecoder(strings.NewReader(data))
+	// how the bytes arrive is not part of the byte stream: a plain reader, one byte at a time,
+	// half of what is asked for, or the last bytes together with io.EOF (chosen by the input)
+	var r io.Reader = strings.NewReader(data)
+	switch len(data) % 4 {
+	case 1:
+		r = iotest.OneByteReader(r)
+	case 2:
+		r = iotest.HalfReader(r)
+	case 3:
+		r = iotest.DataErrReader(r)
+	}
+	dec := gedcom.NewDecoder(r)
 	dec.AllowMultiLine = ml
 	dec.AllowInvalidIndents = ii
 	d.doc, d.err = dec.Decode()
